@@ -424,3 +424,146 @@ func balancedField(p *Program, f *types.Var, reach map[*ssa.Function]bool) (bool
 }
 
 var _ = sort.Strings
+
+// ---------------------------------------------------------------------------
+// R-TYPED-NIL (C06): a reader that returns (*T, error) and whose result is converted to
+// interface{} (body elements) must never return (nil, nil): the nil pointer becomes a non-nil
+// interface value, passes the `element != nil` test, lands in Body.Elements and is dereferenced
+// by the first accessor that type-asserts it.
+// ---------------------------------------------------------------------------
+
+func ruleTypedNil(r *Run) {
+	p := r.P
+	m := buildReaderModel(p)
+	n := 0
+	checked := map[*ssa.Function]bool{}
+	for _, fn := range m.Funcs {
+		allInstrs(fn, func(in ssa.Instruction) {
+			mi, ok := in.(*ssa.MakeInterface)
+			if !ok {
+				return
+			}
+			if _, isPtr := mi.X.Type().Underlying().(*types.Pointer); !isPtr {
+				return
+			}
+			ex, ok := mi.X.(*ssa.Extract)
+			if !ok || ex.Index != 0 {
+				return
+			}
+			call, ok := ex.Tuple.(*ssa.Call)
+			if !ok {
+				return
+			}
+			cal := staticCallee(call)
+			if cal == nil || !p.inModule(cal) || checked[cal] {
+				return
+			}
+			checked[cal] = true
+			n++
+			ei := errorResultIndex(cal.Signature)
+			bad := ""
+			for _, ret := range returnsOf(cal) {
+				if ei < 0 || len(ret.Results) <= ei {
+					continue
+				}
+				if !isNilConst(ret.Results[ei]) {
+					continue // failure path (a non-constant error value is taken to be non-nil)
+				}
+				if mayBeNilPointer(ret.Results[0], 0) {
+					bad = p.pos(ret.Pos())
+				}
+			}
+			r.Check("typed-nil", shortName(cal), cal.Pos(), bad == "",
+				fmt.Sprintf("%s returns a pointer that %s turns into an interface value; it must not return a nil pointer together with a nil error%s", shortName(cal), shortName(fn), map[bool]string{true: "", false: " but does at " + bad + ": the typed nil is stored as a body element and dereferenced later"}[bad == ""]))
+		})
+	}
+	r.Min("reader_results_converted_to_interface", n, 3)
+}
+
+func mayBeNilPointer(v ssa.Value, depth int) bool {
+	if depth > 6 {
+		return false
+	}
+	switch x := v.(type) {
+	case *ssa.Const:
+		return x.IsNil()
+	case *ssa.Phi:
+		for _, e := range x.Edges {
+			if mayBeNilPointer(e, depth+1) {
+				return true
+			}
+		}
+	case *ssa.ChangeType:
+		return mayBeNilPointer(x.X, depth+1)
+	}
+	return false
+}
+
+// ---------------------------------------------------------------------------
+// R-UNTRUSTED-SIZE (C06): sizes declared in the archive directory are attacker-controlled.  No
+// allocation or slice bound on the Open path may be computed from a Size field of archive/zip's
+// File / FileHeader: a directory entry claiming 2^62 bytes makes `make` panic (or exhausts memory)
+// before a single byte has been read.
+// ---------------------------------------------------------------------------
+
+func ruleUntrustedSize(r *Run) {
+	p := r.P
+	root := r.mustFunc(pkgDoc, "openFromZipReader")
+	if root == nil {
+		return
+	}
+	roots := []*ssa.Function{root}
+	for _, n := range []string{"Open", "OpenFromMemory"} {
+		if f := p.Func(pkgDoc, n); f != nil {
+			roots = append(roots, f)
+		}
+	}
+	reach := p.cgReach(roots...)
+	sl := newSlicer(p)
+	sl.dataOnly = true
+	n := 0
+	for _, fn := range sortedFuncs(reach) {
+		idx := 0
+		allInstrs(fn, func(in ssa.Instruction) {
+			var sizes []ssa.Value
+			switch x := in.(type) {
+			case *ssa.MakeSlice:
+				sizes = []ssa.Value{x.Len, x.Cap}
+			case *ssa.MakeMap:
+				if x.Reserve != nil {
+					sizes = []ssa.Value{x.Reserve}
+				}
+			case *ssa.MakeChan:
+				sizes = []ssa.Value{x.Size}
+			default:
+				return
+			}
+			n++
+			idx++
+			bad := ""
+			for _, sz := range sizes {
+				if sz == nil {
+					continue
+				}
+				if _, isC := sz.(*ssa.Const); isC {
+					continue
+				}
+				for v := range sl.Slice(sz).Vals {
+					var fv *types.Var
+					switch y := v.(type) {
+					case *ssa.FieldAddr:
+						fv, _ = fieldOfAddr(y)
+					case *ssa.Field:
+						fv, _ = fieldOfVal(y)
+					}
+					if fv != nil && fv.Pkg() != nil && fv.Pkg().Path() == "archive/zip" && strings.Contains(fv.Name(), "Size") {
+						bad = "archive/zip." + fv.Name()
+					}
+				}
+			}
+			r.Check("untrusted-size", fmt.Sprintf("%s:make#%d", shortName(fn), idx), in.Pos(), bad == "",
+				fmt.Sprintf("allocation in %s on the Open path%s", shortName(fn), map[bool]string{true: " does not depend on sizes declared by the archive", false: " is sized from " + bad + ", a value the archive's author chooses: a forged directory entry makes Open panic (makeslice: cap out of range) or exhaust memory instead of returning an error"}[bad == ""]))
+		})
+	}
+	r.Min("allocations_on_open_path", n, 3)
+}
